@@ -327,7 +327,7 @@ def run(tier):
     part = tree.shapes_upto(npart, nfull + 1)
     jobs = [(MOD, "job", {"shapes": [s], "full": True}) for s in full[::-1]] + \
            [(MOD, "job", {"shapes": [s], "full": False}) for s in part[::-1]]
-    core.run_pool(jobs + [("mc.capacity", "job", {"pid": "C14"})], 0, into=t)
+    core.run_pool(jobs + [("mc.capacity", "job", {"pid": "C14"}), ("mc.positional", "job", {"pid": "C14"})], 0, into=t)
     cov = {
         "states": t.c["states"], "transitions": t.c["evaluations"], "traces_validated_against_impl": t.c["evaluations"],
         "evaluations": t.c["evaluations"], "distinct_nontrivial": t.c["nontrivial"],
@@ -340,6 +340,6 @@ def run(tier):
         "bounds": {"full_upto": nfull, "partial_at": npart, "shapes": len(full) + len(part)},
     }
     return {"tally": t, "coverage": cov,
-            "guards": ("capacity_checks", "nontrivial", "count_errors_expected", "maxcount_zero_with_matches", "missing_attribute_skipped",
+            "guards": ("positional_calls", "capacity_checks", "nontrivial", "count_errors_expected", "maxcount_zero_with_matches", "missing_attribute_skipped",
                        "attribute_kind_queries", "calls_after_mutation"),
             "assumptions": ["fastcache is not installed in this image: cachedsearch is the documented pass-through"]}
